@@ -74,6 +74,7 @@ func computeDependenciesAndInclusion(funcs []*provider, initF *provider) ([]*pro
 	for i, fm := range funcs {
 		fm.chainPosition = i
 	}
+	verifDump("S4", true, funcs, 0, nil, nil, 0, initF)
 	debugln("initial set of functions")
 	for _, fm := range funcs {
 		debugf("\t%s", fm)
